@@ -20,6 +20,9 @@ ERROR awkward_ListOffsetArray_argsort_strings_impl(
 
   auto sorter =
         [&stringdata, &stringstarts, &stringstops](int left, int right) -> bool {
+          if (!is_ascending) {
+            std::swap(left, right);
+          }
           size_t left_n = stringstops[left] - stringstarts[left];
           size_t right_n = stringstops[right] - stringstarts[right];
           const char* left_str = &stringdata[stringstarts[left]];
@@ -32,12 +35,7 @@ ERROR awkward_ListOffsetArray_argsort_strings_impl(
           else {
             out = cmp < 0;
           }
-          if (is_ascending) {
-            return out;
-          }
-          else {
-            return !out;
-          }
+          return out;
         };
 
   int64_t firstindex = 0;
